@@ -1,15 +1,533 @@
-"""SymChars: short free-form text as a list of code points (placeholder, extended later)."""
+"""SymChars: short free-form text as a list of code points (int | SymInt), concrete length.
+
+Operations fork per character only where the result *shape* depends on the character
+(strip, split, replace with a different length ...); everything else builds ite-terms.
+"""
 from __future__ import annotations
 
-from .core import SymInt, Unsupported
+import binascii as _ba
+
+import z3
+
+from . import core
+from .core import SymInt, SymBool, Unsupported, ctx, sx_and, sx_or, sx_not, sx_ite, mk_int, term_of
+
+_WS = (9, 10, 11, 12, 13, 28, 29, 30, 31, 32, 133, 160)     # str.isspace() code points below 0x100
+
+
+def _cp(x):
+    return x
+
+
+def _lit(s):
+    return [ord(c) for c in s]
+
+
+def as_cps(x):
+    if isinstance(x, SymChars):
+        return x.cps
+    if isinstance(x, str):
+        return _lit(x)
+    raise TypeError(f'expected str, got {type(x).__name__}')
+
+
+def mk(cps):
+    """str when every code point is concrete, else SymChars"""
+    cps = list(cps)
+    if all(isinstance(c, int) for c in cps):
+        return ''.join(chr(c) for c in cps)
+    return SymChars(cps)
+
+
+def is_space(c):
+    if isinstance(c, int):
+        return chr(c).isspace()
+    return sx_or(*[c == w for w in _WS if c.lo <= w <= c.hi]) if True else False
+
+
+def is_digit(c):
+    if isinstance(c, int):
+        return 48 <= c <= 57
+    return sx_and(c >= 48, c <= 57)
+
+
+def lower_cp(c):
+    if isinstance(c, int):
+        return ord(chr(c).lower()) if len(chr(c).lower()) == 1 else c
+    # ASCII letters only; non-ASCII code points are outside the claim of every harness using lower()
+    return sx_ite(sx_and(c >= 65, c <= 90), c + 32, c)
+
+
+def upper_cp(c):
+    if isinstance(c, int):
+        return ord(chr(c).upper()) if len(chr(c).upper()) == 1 else c
+    return sx_ite(sx_and(c >= 97, c <= 122), c - 32, c)
 
 
 class SymChars:
     __sx_sym__ = True
+    __slots__ = ('cps',)
 
     def __init__(self, cps):
         self.cps = list(cps)
 
+    # -- basics ----------------------------------------------------------------
+    def __sx_len__(self):
+        return len(self.cps)
+
+    def __len__(self):
+        return len(self.cps)
+
+    def __bool__(self):
+        return len(self.cps) > 0
+
+    def __repr__(self):
+        return f'SymChars({self.cps})'
+
+    def __sx_eval__(self, m):
+        out = []
+        for c in self.cps:
+            v = c if isinstance(c, int) else m.eval(c.t, model_completion=True).as_long()
+            out.append(chr(v) if 0 <= v < 0x110000 else '?')
+        return ''.join(out)
+
+    def __sx_str__(self):
+        return self
+
+    def __sx_repr__(self):
+        return mk([39] + self.cps + [39])
+
+    def __iter__(self):
+        for c in self.cps:
+            yield mk([c])
+
+    def __getitem__(self, k):
+        if isinstance(k, slice):
+            return mk(self.cps[k])
+        if isinstance(k, SymInt):
+            k = k.concrete('string index')
+        return mk([self.cps[k]])
+
+    def __add__(self, o):
+        if isinstance(o, (str, SymChars)):
+            return mk(self.cps + as_cps(o))
+        return NotImplemented
+
+    def __radd__(self, o):
+        if isinstance(o, str):
+            return mk(_lit(o) + self.cps)
+        return NotImplemented
+
+    def __mul__(self, n):
+        return mk(self.cps * n)
+
+    def __sx_ord__(self):
+        if len(self.cps) != 1:
+            raise TypeError(f'ord() expected a character, but string of length {len(self.cps)} found')
+        return self.cps[0]
+
+    def __eq__(self, o):
+        if not isinstance(o, (str, SymChars)):
+            return False
+        ocps = as_cps(o)
+        if len(ocps) != len(self.cps):
+            return False
+        return sx_and(*[a == b for a, b in zip(self.cps, ocps)])
+
+    def __ne__(self, o):
+        return sx_not(self.__eq__(o))
+
+    def __lt__(self, o):
+        raise Unsupported('ordering of symbolic strings')
+
+    def __hash__(self):
+        return hash(self.concrete())
+
+    def concrete(self):
+        return ''.join(chr(c if isinstance(c, int) else c.concrete('character')) for c in self.cps)
+
+    def __format__(self, spec):
+        # formatted text is a real str: the characters are concretised (bounded fork)
+        return format(self.concrete(), spec)
+
+    def __sx_join__(self, sep, items):
+        out = []
+        first = True
+        for it in items:
+            if not first:
+                out += as_cps(sep)
+            out += as_cps(it)
+            first = False
+        return mk(out)
+
+    def join(self, items):
+        return self.__sx_join__(self, list(items))
+
+    # -- predicates / search ---------------------------------------------------------
+    def _match_at(self, i, sub):
+        return sx_and(*[self.cps[i + j] == sub[j] for j in range(len(sub))])
+
+    def __contains__(self, sub):
+        sub = as_cps(sub)
+        n, k = len(self.cps), len(sub)
+        if k == 0:
+            return True
+        if k > n:
+            return False
+        return bool(sx_or(*[self._match_at(i, sub) for i in range(n - k + 1)]))
+
+    def startswith(self, prefix, start=0):
+        if isinstance(prefix, tuple):
+            return sx_or(*[self.startswith(p, start) for p in prefix])
+        p = as_cps(prefix)
+        if start + len(p) > len(self.cps):
+            return False
+        return self._match_at(start, p)
+
+    def endswith(self, suffix):
+        if isinstance(suffix, tuple):
+            return sx_or(*[self.endswith(s) for s in suffix])
+        s = as_cps(suffix)
+        if len(s) > len(self.cps):
+            return False
+        return self._match_at(len(self.cps) - len(s), s)
+
+    def find(self, sub, start=0):
+        sub = as_cps(sub)
+        for i in range(start, len(self.cps) - len(sub) + 1):
+            if self._match_at(i, sub):
+                return i
+        return -1
+
+    def index(self, sub, start=0):
+        r = self.find(sub, start)
+        if r < 0:
+            raise ValueError('substring not found')
+        return r
+
+    def rfind(self, sub):
+        sub = as_cps(sub)
+        for i in range(len(self.cps) - len(sub), -1, -1):
+            if self._match_at(i, sub):
+                return i
+        return -1
+
+    def count(self, sub):
+        sub = as_cps(sub)
+        n = 0
+        i = 0
+        while i + len(sub) <= len(self.cps):
+            if self._match_at(i, sub):
+                n += 1
+                i += max(1, len(sub))
+            else:
+                i += 1
+        return n
+
+    def isdigit(self):
+        if not self.cps:
+            return False
+        return sx_and(*[is_digit(c) for c in self.cps])
+
+    def isspace(self):
+        if not self.cps:
+            return False
+        return sx_and(*[is_space(c) for c in self.cps])
+
+    # -- transformations -------------------------------------------------------------
+    def lower(self):
+        return mk([lower_cp(c) for c in self.cps])
+
+    def upper(self):
+        return mk([upper_cp(c) for c in self.cps])
+
+    def strip(self, chars=None):
+        left = self.lstrip(chars)
+        return left.rstrip(chars)
+
+    def _in_set(self, c, chars):
+        if chars is None:
+            return is_space(c)
+        return sx_or(*[c == ord(x) for x in chars])
+
+    def lstrip(self, chars=None):
+        i = 0
+        while i < len(self.cps) and self._in_set(self.cps[i], chars):
+            i += 1
+        return mk(self.cps[i:])
+
+    def rstrip(self, chars=None):
+        j = len(self.cps)
+        while j > 0 and self._in_set(self.cps[j - 1], chars):
+            j -= 1
+        return mk(self.cps[:j])
+
+    def split(self, sep=None, maxsplit=-1):
+        if sep is None:
+            raise Unsupported('split() on whitespace for a symbolic string')
+        s = as_cps(sep)
+        out = []
+        cur = []
+        i = 0
+        n = len(self.cps)
+        while i < n:
+            if (maxsplit < 0 or len(out) < maxsplit) and i + len(s) <= n and self._match_at(i, s):
+                out.append(mk(cur))
+                cur = []
+                i += len(s)
+            else:
+                cur.append(self.cps[i])
+                i += 1
+        out.append(mk(cur))
+        return out
+
+    def partition(self, sep):
+        i = self.find(sep)
+        if i < 0:
+            return self, '', ''
+        return mk(self.cps[:i]), sep, mk(self.cps[i + len(sep):])
+
+    def replace(self, old, new, count=-1):
+        o = as_cps(old)
+        nw = as_cps(new)
+        if not o:
+            raise Unsupported('replace of the empty string')
+        if len(o) == 1 and len(nw) == 1:
+            # same shape: no fork
+            return mk([sx_ite(c == o[0], nw[0], c) if not isinstance(c, int) or not isinstance(o[0], int)
+                       else (nw[0] if c == o[0] else c) for c in self.cps])
+        out = []
+        i = 0
+        n = len(self.cps)
+        done = 0
+        while i < n:
+            if (count < 0 or done < count) and i + len(o) <= n and self._match_at(i, o):
+                out += nw
+                i += len(o)
+                done += 1
+            else:
+                out.append(self.cps[i])
+                i += 1
+        return mk(out)
+
+    def translate_pairs(self, pairs):
+        cps = []
+        for c in self.cps:
+            r = c
+            for a, b in pairs:
+                r = sx_ite(c == ord(a), ord(b), r) if not isinstance(c, int) else (ord(b) if c == ord(a) else r)
+            cps.append(r)
+        return mk(cps)
+
+    def encode(self, encoding='utf-8', errors='strict'):
+        return self.encode_ascii()
+
+    def encode_ascii(self):
+        from .bytes_ import SymBytes
+        for c in self.cps:
+            if not isinstance(c, int) and not (c < 128):
+                raise Unsupported('non-ASCII code point in a symbolic string being encoded')
+        return SymBytes(items=list(self.cps))
+
+    def title(self):
+        return mk(self.concrete().title())
+
+    # -- conversions -------------------------------------------------------------------
+    def __sx_int__(self, base=10):
+        return parse_int(self, base)
+
+    def __sx_float__(self):
+        raise Unsupported('float() of a symbolic string')
+
+
+def fresh(name, n, lo=0, hi=0x10FFFF, register=True):
+    """n fresh symbolic characters"""
+    cx = ctx()
+    return SymChars([cx.int(f'{name}[{i}]', lo, hi, register=register) for i in range(n)])
+
+
+def parse_int(s, base=10):
+    """CPython int(str, 10) grammar: optional whitespace, sign, digits with single underscores."""
+    if base != 10:
+        raise Unsupported('int() of a symbolic string with base != 10')
+    t = s.strip()
+    cps = as_cps(t)
+    if not cps:
+        raise ValueError("invalid literal for int() with base 10: ''")
+    sign = 1
+    if cps[0] == 45:
+        sign = -1
+        cps = cps[1:]
+    elif cps[0] == 43:
+        cps = cps[1:]
+    if not cps:
+        raise ValueError('invalid literal for int() with base 10')
+    val = 0
+    prev_us = True        # an underscore is not allowed first
+    for i, c in enumerate(cps):
+        if is_digit(c):
+            val = val * 10 + (c - 48)
+            prev_us = False
+        elif c == 95 and not prev_us and i + 1 < len(cps):
+            prev_us = True
+        else:
+            raise ValueError('invalid literal for int() with base 10')
+    if prev_us:
+        raise ValueError('invalid literal for int() with base 10')
+    return val * sign
+
+
+# ---------------------------------------------------------------------------
+# hex / base64 over symbolic bytes
+
+def _hex_digit(n):
+    return sx_ite(n < 10, n + 48, n + 87)
+
 
 def hex_of(b):
-    raise Unsupported('hex() of symbolic bytes')
+    cps = []
+    for v in b.items() if hasattr(b, 'items') else list(b):
+        hi, lo = core.sx_divmod(v, 16)
+        cps += [_hex_digit(hi), _hex_digit(lo)]
+    return mk(cps) if not all(isinstance(c, int) for c in cps) else SymChars(cps)
+
+
+def _nibble(c):
+    if isinstance(c, int):
+        return int(chr(c), 16) if chr(c) in '0123456789abcdefABCDEF' else None
+    if sx_and(c >= 48, c <= 57):
+        return c - 48
+    if sx_and(c >= 97, c <= 102):
+        return c - 87
+    if sx_and(c >= 65, c <= 70):
+        return c - 55
+    return None
+
+
+def _nibble_valid(c):
+    return sx_or(sx_and(c >= 48, c <= 57), sx_and(c >= 97, c <= 102), sx_and(c >= 65, c <= 70))
+
+
+def _nibble_ite(c):
+    return sx_ite(c <= 57, c - 48, sx_ite(c <= 70, c - 55, c - 87))
+
+
+def unhex(s):
+    from .bytes_ import SymBytes
+    cps = as_cps(s)
+    if len(cps) % 2:
+        raise _ba.Error('Odd-length string')
+    symbolic = [c for c in cps if not isinstance(c, int)]
+    fast = bool(sx_and(*[_nibble_valid(c) for c in symbolic])) if symbolic else False
+    out = []
+    for i in range(0, len(cps), 2):
+        if fast:
+            a = _nibble_ite(cps[i]) if not isinstance(cps[i], int) else _nibble(cps[i])
+            b = _nibble_ite(cps[i + 1]) if not isinstance(cps[i + 1], int) else _nibble(cps[i + 1])
+        else:
+            a, b = _nibble(cps[i]), _nibble(cps[i + 1])
+        if a is None or b is None:
+            raise _ba.Error('Non-hexadecimal digit found')
+        out.append(a * 16 + b)
+    return SymBytes(items=out) if any(isinstance(v, SymInt) for v in out) else bytes(out)
+
+
+def _b64_char(v):
+    """sextet -> code point"""
+    if isinstance(v, int):
+        return ord('ABCDEFGHIJKLMNOPQRSTUVWXYZabcdefghijklmnopqrstuvwxyz0123456789+/'[v])
+    return sx_ite(v < 26, v + 65, sx_ite(v < 52, v + 71, sx_ite(v < 62, v - 4, sx_ite(v == 62, 43, 47))))
+
+
+def b64_of(b):
+    items = b.items() if hasattr(b, 'items') else list(b)
+    cps = []
+    for i in range(0, len(items), 3):
+        grp = items[i:i + 3]
+        pad = 3 - len(grp)
+        grp = grp + [0] * pad
+        v = (grp[0] * 256 + grp[1]) * 256 + grp[2]
+        r, s3 = core.sx_divmod(v, 64)
+        r, s2 = core.sx_divmod(r, 64)
+        s0, s1 = core.sx_divmod(r, 64)
+        quad = [_b64_char(s0), _b64_char(s1), _b64_char(s2), _b64_char(s3)]
+        if pad:
+            quad[4 - pad:] = [61] * pad
+        cps += quad
+    return SymChars(cps)
+
+
+def _sextet(c):
+    if isinstance(c, int):
+        ch = chr(c)
+        tbl = 'ABCDEFGHIJKLMNOPQRSTUVWXYZabcdefghijklmnopqrstuvwxyz0123456789+/'
+        return tbl.index(ch) if ch in tbl else None
+    if sx_and(c >= 65, c <= 90):
+        return c - 65
+    if sx_and(c >= 97, c <= 122):
+        return c - 71
+    if sx_and(c >= 48, c <= 57):
+        return c + 4
+    if c == 43:
+        return 62
+    if c == 47:
+        return 63
+    return None
+
+
+def _sextet_valid(c):
+    return sx_or(sx_and(c >= 65, c <= 90), sx_and(c >= 97, c <= 122), sx_and(c >= 48, c <= 57), c == 43, c == 47)
+
+
+def _sextet_ite(c):
+    """sextet of a code point known to be in the base64 alphabet (no fork)"""
+    return sx_ite(c <= 57, sx_ite(c == 43, 62, sx_ite(c == 47, 63, c + 4)),
+                  sx_ite(c <= 90, c - 65, c - 71))
+
+
+def unb64(s):
+    """binascii.a2b_base64 in non-strict mode for well-padded input; characters outside the
+    alphabet are skipped (as CPython does), wrong padding raises binascii.Error."""
+    from .bytes_ import SymBytes
+    cps = as_cps(s)
+    symbolic = [c for c in cps if not isinstance(c, int)]
+    fast = False
+    if symbolic:
+        # one decision: every symbolic character is an alphabet character (always the case for
+        # text produced by b64_of); otherwise fall back to the per-character case split
+        fast = bool(sx_and(*[_sextet_valid(c) for c in symbolic]))
+    sext = []
+    npad = 0
+    for c in cps:
+        if isinstance(c, int) or not fast:
+            if c == 61:
+                npad += 1
+                continue
+            v = _sextet(c)
+            if v is None:
+                continue
+        else:
+            v = _sextet_ite(c)
+        if npad:
+            npad = 0
+        sext.append(v)
+    rem = len(sext) % 4
+    if rem == 1:
+        raise _ba.Error('Invalid base64-encoded string: number of data characters cannot be 1 more than a multiple of 4')
+    if rem and npad < 4 - rem:
+        raise _ba.Error('Incorrect padding')
+    out = []
+    for i in range(0, len(sext) - rem, 4):
+        v = ((sext[i] * 64 + sext[i + 1]) * 64 + sext[i + 2]) * 64 + sext[i + 3]
+        r, b2 = core.sx_divmod(v, 256)
+        b0, b1 = core.sx_divmod(r, 256)
+        out += [b0, b1, b2]
+    if rem == 2:
+        v = sext[-2] * 64 + sext[-1]
+        out.append(core.sx_divmod(v, 16)[0])
+    elif rem == 3:
+        v = (sext[-3] * 64 + sext[-2]) * 64 + sext[-1]
+        r = core.sx_divmod(v, 4)[0]
+        b0, b1 = core.sx_divmod(r, 256)
+        out += [b0, b1]
+    return SymBytes(items=out) if any(isinstance(v, SymInt) for v in out) else bytes(out)
